@@ -366,7 +366,12 @@ impl<'a> Sem<'a> {
                 // separated by a blank line: not a doc comment
                 let a = self.fresh("detached ");
                 self.w(&format!("// {a}"));
-                self.w("\n");
+                // the separating blank line may hold spaces or tabs
+                match self.rng.below(3) {
+                    0 => self.w("\n"),
+                    1 => self.w("\n  "),
+                    _ => self.w("\n\t "),
+                }
                 self.nl();
                 None
             }
@@ -1795,4 +1800,64 @@ pub fn program(rng: &mut Rng, opts: Opts) -> Program {
 pub fn program_from(seed: u64, statements: usize, opts: Opts) -> Program {
     let mut rng = Rng::new(seed ^ 0x5E11);
     Sem::new(&mut rng, opts).generate(statements)
+}
+
+impl Program {
+    /// The same program with CRLF line ends; every recorded offset is remapped.
+    pub fn to_crlf(&self) -> Program {
+        let mut p = self.clone();
+        // per file: number of '\n' strictly before each byte offset
+        let tables: Vec<Vec<usize>> = self
+            .files
+            .iter()
+            .map(|(_, t)| {
+                let mut v = Vec::with_capacity(t.len() + 1);
+                let mut n = 0;
+                for b in t.bytes() {
+                    v.push(n);
+                    if b == b'\n' {
+                        n += 1;
+                    }
+                }
+                v.push(n);
+                v
+            })
+            .collect();
+        let m = |f: usize, o: usize| o + tables[f][o.min(tables[f].len() - 1)];
+        let mr = |f: usize, r: (usize, usize)| (m(f, r.0), m(f, r.1));
+        for (i, (_, t)) in p.files.iter_mut().enumerate() {
+            let _ = i;
+            *t = t.replace('\n', "\r\n");
+        }
+        for d in p.decls.iter_mut() {
+            d.range = mr(d.file, d.range);
+        }
+        for o in p.occs.iter_mut() {
+            o.range = mr(o.file, o.range);
+        }
+        for s in p.stmts.iter_mut() {
+            s.range = mr(s.file, s.range);
+        }
+        for c in p.classrefs.iter_mut() {
+            c.name_range = mr(c.file, c.name_range);
+            c.args_range = c.args_range.map(|r| mr(c.file, r));
+            for a in c.positional.iter_mut() {
+                a.0 = m(c.file, a.0);
+            }
+        }
+        for l in p.lets.iter_mut() {
+            l.name_range = mr(l.file, l.name_range);
+        }
+        for s in p.spans.iter_mut() {
+            s.1 = mr(s.0, s.1);
+        }
+        for t in p.typed_sites.iter_mut() {
+            t.1 = mr(t.0, t.1);
+        }
+        for b in p.bang_sites.iter_mut() {
+            b.2 = m(b.0, b.2);
+            b.4 = m(b.0, b.4);
+        }
+        p
+    }
 }
